@@ -51,7 +51,7 @@ pub fn run(ctx: &Ctx) -> i32 {
     let th = ctx.tier.thorough();
     let w = if th { 7 } else { 6 };
     let leaves = families::leaf_alphabet();
-    let mut acc = leaves.par_iter().enumerate().map(|(li, v)| {
+    let mut acc = leaves.par_iter().enumerate().with_max_len(1).map(|(li, v)| {
         let mut acc = Acc::new();
         for (sn, m) in leaf_shapes(&M::Leaf(v.clone())) {
             let cid = || format!("leaf{li}/{sn}");
@@ -72,7 +72,7 @@ pub fn run(ctx: &Ctx) -> i32 {
     let mut trees = families::plain(w);
     let nbuilt = trees.len();
     trees.extend(families::decode_only());
-    let acc2 = trees.par_iter().enumerate().map(|(ti, m)| {
+    let acc2 = trees.par_iter().enumerate().with_max_len(1).map(|(ti, m)| {
         let mut acc = Acc::new();
         acc.inc("trees");
         let e = if ti < nbuilt { bind::build(m, 0) } else { bind::build_route(m, Route::Decode) };
